@@ -91,7 +91,9 @@ func scenarioC08(r *Run) {
 	}
 	sp := Spelling{T: t, Labels: true, Values: true, AlgLabel: true}
 	ent := NewEntropy(uint64(t.U32("entropy.seed")))
-	switch t.Pick([]int{3, 5, 3, 3, 1}, "c08.object") {
+	switch t.Pick([]int{3, 5, 3, 3, 1, 1}, "c08.object") {
+	case 5:
+		c08DegenerateCsig(r, t, ent)
 	case 4:
 		c08GoValues(r, t, ent)
 	case 0:
@@ -372,10 +374,21 @@ func c08Key(r *Run, t *tape.Tape) {
 	var k cose.Key
 	var err error
 	kb := ks.Bytes()
-	r.Lib(func() { err = k.UnmarshalCBOR(kb) })
-	if err != nil {
-		r.Outcome("key-refused") // C14/C15's business
-		return
+	if mk, ok := keyInMemory(ks); ok && refcose.KeyConsistent(kb) == nil && t.Bool(1, 3, "c08.key.inmemory") {
+		// a consistent Key value written down by the application itself (struct
+		// literal), never seen by the decoder: whatever MarshalCBOR makes of
+		// it - an error or bytes - the bytes must be acceptable to
+		// UnmarshalCBOR.  (Key.MarshalCBOR does not validate: an INCONSISTENT
+		// key built in memory is emitted and then refused by the decoder;
+		// such keys are outside the data model this property speaks about.)
+		k = mk
+		r.Probe("key-built-in-memory")
+	} else {
+		r.Lib(func() { err = k.UnmarshalCBOR(kb) })
+		if err != nil {
+			r.Outcome("key-refused") // C14/C15's business
+			return
+		}
 	}
 	// re-populate the parameter map in descending order with spelt labels so
 	// that the in-memory key is a caller-built one, not a decoder product
@@ -624,4 +637,102 @@ func c08GoValues(r *Run, t *tape.Tape, ent *Entropy) {
 	if err != nil || !bytes.Equal(again, b) {
 		r.Fail("decoded-value-reencodes-differently/go-value/"+pick.name+"/"+where, "decode(encode(m)) re-encoded from the parsed headers differs (%v)\nfirst: %s\nagain: %s", err, hexShort(b), hexShort(again))
 	}
+}
+
+// c08DegenerateCsig: the degenerate countersignature values a Go caller can
+// write under labels 7 and 11 - an empty list, a list with a nil entry, a nil
+// *Countersignature.  Closure: the encoder either refuses them or emits
+// something its own decoder accepts.
+func c08DegenerateCsig(r *Run, t *tape.Tape, ent *Entropy) {
+	k := pickCheapKey(t)
+	label := []int64{cose.HeaderLabelCounterSignature, cose.HeaderLabelCounterSignatureV2}[t.Choose(2, "c08.dcs.label")]
+	m := &cose.Sign1Message{Headers: cose.Headers{Protected: cose.ProtectedHeader{cose.HeaderLabelAlgorithm: cose.Algorithm(k.Alg)}, Unprotected: cose.UnprotectedHeader{}}, Payload: []byte("p")}
+	signer := r.signerFor(k, false)
+	var err error
+	r.Lib(func() { err = m.Sign(ent, nil, signer) })
+	if err != nil {
+		return
+	}
+	good := &cose.Countersignature{Headers: cose.Headers{Protected: cose.ProtectedHeader{cose.HeaderLabelAlgorithm: cose.Algorithm(k.Alg)}}}
+	r.Lib(func() { err = good.Sign(ent, signer, m, nil) })
+	if err != nil {
+		return
+	}
+	var v any
+	what := ""
+	switch t.Choose(5, "c08.dcs.kind") {
+	case 0:
+		v, what = []*cose.Countersignature{}, "empty list"
+	case 1:
+		v, what = []*cose.Countersignature{nil}, "list with a nil entry"
+	case 2:
+		v, what = (*cose.Countersignature)(nil), "nil *Countersignature"
+	case 3:
+		v, what = []*cose.Countersignature{good, nil}, "list with a valid and a nil entry"
+	default:
+		v, what = []*cose.Countersignature(nil), "nil list"
+	}
+	m.Headers.Unprotected[label] = v
+	r.Op("ENCODE", "Sign1 with label %d = %s", label, what)
+	r.Outcome("degenerate-countersignature/" + what)
+	b := r.c08Encode(t, "Sign1Message", func() ([]byte, error) { return m.MarshalCBOR() })
+	if b == nil {
+		r.Outcome("degenerate-countersignature-refused-by-encoder")
+		return
+	}
+	var back cose.Sign1Message
+	r.Lib(func() { err = back.UnmarshalCBOR(b) })
+	r.Check()
+	if err != nil {
+		r.Fail("encoder-output-refused/degenerate-countersignature", "a Sign1Message whose label %d holds %s is encoded, and the bytes are refused by Sign1Message.UnmarshalCBOR: %v\n%s", label, what, err, hexShort(b))
+	}
+}
+
+// keyInMemory writes a key specification down as a cose.Key struct literal
+// (only for specifications whose key_ops are plain integers).
+func keyInMemory(ks *KeySpec) (cose.Key, bool) {
+	k := cose.Key{Type: cose.KeyType(ks.Kty), Params: map[any]any{}}
+	if ks.Kid != nil {
+		k.ID = append([]byte{}, ks.Kid...)
+	}
+	if ks.Alg != nil {
+		k.Algorithm = cose.Algorithm(*ks.Alg)
+	}
+	if ks.HasOps {
+		k.Ops = []cose.KeyOp{}
+		for _, o := range ks.Ops {
+			v, ok := o.Int64()
+			if !o.IsInt() || !ok {
+				return cose.Key{}, false
+			}
+			k.Ops = append(k.Ops, cose.KeyOp(v))
+		}
+	}
+	if ks.BaseIV != nil {
+		k.BaseIV = append([]byte{}, ks.BaseIV...)
+	}
+	if ks.Crv != nil {
+		k.Params[int64(-1)] = cose.Curve(*ks.Crv)
+	}
+	if ks.K != nil {
+		k.Params[int64(-1)] = append([]byte{}, ks.K...)
+	}
+	if ks.X != nil {
+		k.Params[int64(-2)] = append([]byte{}, ks.X...)
+	}
+	if ks.YSign != nil {
+		k.Params[int64(-3)] = *ks.YSign
+	} else if ks.Y != nil {
+		k.Params[int64(-3)] = append([]byte{}, ks.Y...)
+	}
+	if ks.D != nil {
+		k.Params[int64(-4)] = append([]byte{}, ks.D...)
+	}
+	for _, e := range ks.Extra {
+		if refcbor.HasTag(e.V) {
+			return cose.Key{}, false
+		}
+		k.Params[itemToGo(e.K, Spelling{}, true)] = itemToGo(e.V, Spelling{}, false)
+	}
+	return k, true
 }
